@@ -19,6 +19,7 @@ def PyVal.NoProperty : PyVal → Prop
   | .dict _ es => es.NoProperty
   | .opaque _ _ => True
   | .objarray _ cells => cells.NoProperty
+  | .obj _ state => state.NoProperty
   | .property => True
   | .unsupported _ => True
 def PyVals.NoProperty : PyVals → Prop
@@ -45,6 +46,7 @@ def PyVal.WF : PyVal → Prop
      | _ => True) ∧ es.WF
   | .opaque _ _ => True
   | .objarray _ cells => cells.WF
+  | .obj _ state => state.WF
   | .property => True
   | .unsupported _ => True
 def PyVals.WF : PyVals → Prop
@@ -116,6 +118,10 @@ theorem roundtrip_val : ∀ (v : PyVal) (s : Sch), v.WF → v.NoProperty → enc
         obtain ⟨items, hi, rfl⟩ := h
         simp [decode, roundtrip_all cells items hw hn hi]
       · cases h
+  | .obj cls state, s, hw, hn, h => by
+    simp only [encode, Option.map_eq_some_iff] at h
+    obtain ⟨c, hc, rfl⟩ := h
+    simp [decode, roundtrip_val state c hw hn hc]
   | .property, _, _, _, h => by simp [encode] at h
   | .unsupported _, _, _, _, h => by simp [encode] at h
 theorem roundtrip_all : ∀ (xs : PyVals) (ss : Schs), xs.WF → xs.NoProperty → encodeAll xs = some ss → decodeAll ss = some xs
